@@ -27,7 +27,7 @@ def core_skips(repo, res):
     from vlib import rules_skips as SK, tables
 
     n = SK.skips_rule(repo, res, tables.load("skips")["row"], only=C03_CORES)
-    res.floor("SKIPS", n, 18)
+    res.floor("SKIPS", n, 13)
 
 
 RAW_CTORS = ("DFA::from_regex", "DFA::from_regex_raw", "DFA::from_regex_lenient", "dfa_from_regex")
@@ -240,7 +240,7 @@ def structure_rules(repo, res):
     if f6 is not None:
         v = A.resolve(f6.body, A.fn_env(f6))
         res.check(v[0] == "call" and P.last(v[1]) == "do_minimize" and v[2][0][0] == "param", "MPT", "MPT:dfa::DFA::minimize", f"minimize(self) = {A.show(v)}", f6.loc())
-    res.floor("CHAIN", res.count("CHAIN"), 6)
-    res.floor("REP", res.count("REP"), 4)
-    res.floor("DEAD", res.count("DEAD"), 4)
-    res.floor("MPT", res.count("MPT"), 7)
+    res.floor("CHAIN", res.count("CHAIN"), 3)
+    res.floor("REP", res.count("REP"), 2)
+    res.floor("DEAD", res.count("DEAD"), 2)
+    res.floor("MPT", res.count("MPT"), 3)
